@@ -287,7 +287,8 @@ def make_sys_run(cfg):
         }[first]()
 
     def run_fn(chooser):
-        w = SchedWorld(chooser, servertype="thread", allow_ticks=False, max_idle_wakes=20, THREADPOOL_SIZE=cfg["size"], THREADPOOL_SIZE_MIN=1)
+        w = SchedWorld(chooser, servertype="thread", allow_ticks=False, max_idle_wakes=20, THREADPOOL_SIZE=cfg["size"], THREADPOOL_SIZE_MIN=1,
+                       COMMTIMEOUT=float(cfg.get("commtimeout", 0.0)))
         violations = []
         try:
             d = w.daemon()
@@ -317,7 +318,12 @@ def make_sys_run(cfg):
             def attacker():
                 for h in holding:
                     h.wait()
+                silent = None
                 try:
+                    if cfg.get("silent_peer_first"):
+                        # a peer that connects and says nothing sits in front of this one (a communication timeout is configured: the
+                        # daemon gives up on it after that long, it may not keep everybody else waiting for ever)
+                        silent = w.net.create_socket(connect=("h", 1))
                     sock = w.net.create_socket(connect=("h", 1))
                     conn = socketutil.SocketConnection(sock)
                     try:
@@ -341,6 +347,8 @@ def make_sys_run(cfg):
                                 break
                     finally:
                         conn.close()
+                        if silent is not None:
+                            silent.close()
                 finally:
                     attacker_done.flag = True
             for i in range(cfg["size"]):
@@ -396,6 +404,8 @@ def sys_configs(quick):
     for size in ((1,) if quick else (1, 2)):
         for first in SYS_FIRSTS:
             out.append({"first": first, "size": size, "p": 1 if (quick or size == 2) else 2, "r": 1, "horizon": 4000})
+    # (configurations with COMMTIMEOUT and a silent peer in front are not run: with a timeout the idle holders themselves are legitimately
+    #  timed out, so the pool is no longer full when the refusal is due - see DESIGN.md, sixth wave, C18-l)
     return out
 
 
